@@ -198,7 +198,7 @@ PROPS.update({
     ),
     'C17': dict(
         level='other',
-        level_text='complete per declaration, bounded over declarations: tools/gen_c17.py writes enum declarations (a fixed boundary set: 2 and 40 variants, widths 1/3/7/8, default width for max discriminant 1..254 incl. every power-of-two boundary, binary/hex/byte literals, alternatives, display characters, over-wide declared width; plus VERIF_SEED-random ones, quick 12 / thorough 60); the REAL #[derive(Codec)] expands them when the harness crate is compiled; the codec contract (width, to_bits = discriminant, decoders accept exactly discriminants and alternatives, to_char / try_from_ascii, everything else refused, items() in declaration order) is proved by Kani for all 256 bytes per declaration against an oracle computed from the declaration text by the generator (independent of the macro), and re-executed natively; malformed declarations are compiled alone and must fail to compile while the program of well-formed declarations compiles (whether the message is the derive own wording is recorded, not demanded)',
+        level_text='complete per declaration, bounded over declarations: tools/gen_c17.py writes enum declarations (a fixed boundary set: 2 and 40 variants, widths 1/3/7/8, default width for max discriminant 1..254 incl. every power-of-two boundary, binary/hex/byte literals, alternatives, display characters, over-wide declared width; plus VERIF_SEED-random ones, quick 12 / thorough 60); the REAL #[derive(Codec)] expands them when the harness crate is compiled; the codec contract (width, to_bits = discriminant, decoders accept exactly discriminants and alternatives, to_char / try_from_ascii, everything else refused, items() in declaration order) is proved by Kani for all 256 bytes per declaration against an oracle computed from the declaration text by the generator (independent of the macro), and re-executed natively; sequences and k-mers over EVERY generated codec are additionally exercised natively (c17/src/seqlaw.rs: display, parse, nth, iter, rev, slices, kmers of width 1, 3, 8, hash, back-conversion - bounded glue; the deductive argument for the last clause of the property is compositional: the Verus proofs of Seq / SeqSlice / Kmer are generic in the codec and assume only the codec contract proved here); malformed declarations are compiled alone and must fail to compile while the program of well-formed declarations compiles (whether the message is the derive own wording is recorded, not demanded)',
         level_note='the universally quantified statement is about the generator (parse_variants / parse_width / codec_derive: proc-macro code over syn token trees, outside Verus and Kani - Kani ICEs on it); what is verified is the generator OUTPUT for a bounded set of programs; ' + KANI_NOTE,
         technique='Kani codec contract on the real derive expansion of generated declarations (complete per declaration, bounded over declarations) + compiler runs for the rejection half',
         explanation='obligations count Kani checks and native law clauses over the generated declarations of this run (count = coverage.c17.declarations); bounded over programs, so not a proof of the quantified property; rejection cases are compiler runs listed under bounded_standins',
